@@ -30,7 +30,11 @@ pub fn round_ref(mant: u64, max: Option<usize>, truncate: bool) -> (u64, u32, bo
 
 /// kind: 0 scientific, 1 positive exponent (sci_exp >= 0), 2 negative exponent (sci_exp < 0)
 pub fn cmp_emit(kind: u8, mant: u64, sci_exp: i32, max: Option<usize>, min: Option<usize>, truncate: bool, trim: bool) -> Result<(), &'static str> {
-    const F: u128 = lexical_util::format::STANDARD;
+    cmp_emit_fmt::<{ lexical_util::format::STANDARD }>(kind, mant, sci_exp, max, min, truncate, trim)
+}
+
+/// the same oracle under an arbitrary decimal format: the bytes must be derivable by the reference grammar OF THAT FORMAT
+pub fn cmp_emit_fmt<const F: u128>(kind: u8, mant: u64, sci_exp: i32, max: Option<usize>, min: Option<usize>, truncate: bool, trim: bool) -> Result<(), &'static str> {
     let mut b = Options::builder().trim_floats(trim);
     b = b.max_significant_digits(max.and_then(NonZeroUsize::new)).min_significant_digits(min.and_then(NonZeroUsize::new));
     b = b.round_mode(if truncate { RoundMode::Truncate } else { RoundMode::Round });
@@ -145,5 +149,33 @@ crate::harnesses! {
         let r = cmp_emit(kind, mant, sci, if max == 0 { None } else { Some(max) }, if min == 0 { None } else { Some(min) }, truncate, trim);
         vcheck!(r.is_ok(), "positional output re-reads to the rounded digits, with padding / trimming as configured");
         cover(trim && sci >= 0);
+    }
+}
+
+
+#[cfg(feature = "format")]
+pub mod fmt {
+    use super::*;
+    use lexical_util::format::NumberFormatBuilder as B;
+    pub const F_REQ_EXP_SIGN: u128 = B::new().required_exponent_sign(true).required_exponent_notation(true).build_strict();
+    pub const F_REQ_MANT_SIGN: u128 = B::new().required_mantissa_sign(true).build_strict();
+    crate::harnesses! {
+        /// scientific writer under a format that requires the exponent sign (and exponent notation): what is written is
+        /// derivable by the grammar of the same format (write -> parse agreement on syntax), exponent 0 included.
+        /// @prop C08 C12 C14
+        /// @feat format radix_format
+        /// @bound mantissa in 1..=999 (no trailing zero), -3 <= sci_exp <= 3, format required_exponent_sign + required_exponent_notation
+        /// @fn lexical-write-float::shared::{write_exponent, write_exponent_sign}
+        /// @fn lexical-write-float::algorithm::write_float_scientific
+        /// @timeout 1500
+        #[cfg_attr(kani, kani::unwind(10))]
+        fn emit_required_exponent_sign() {
+            let mant: u64 = any();
+            let sci: i32 = any();
+            assume(mant >= 1 && mant < 1000 && mant % 10 != 0 && sci >= -3 && sci <= 3);
+            let r = cmp_emit_fmt::<F_REQ_EXP_SIGN>(0, mant, sci, None, None, false, false);
+            vcheck!(r.is_ok(), "scientific output is derivable by the grammar of its own format (exponent sign required)");
+            cover(sci == 0);
+        }
     }
 }
